@@ -98,18 +98,25 @@ NewAns(o, o2, i) ==
   IN  { o2.reqs[i].ans[k] : k \in (old + 1)..Len(o2.reqs[i].ans) }
 
 ----------------------------------------------------------------------------
-\* Abstract state: has Stop been called; and `due`: the requests that were
+\* Abstract state: has Stop been called; `due`: the requests that were
 \* already queued when the batch manager last chose the start height of a
-\* scan (it does so when it lands on PC_BEST0).  A scan that then completes
-\* without error covers start..tip for each of them, so they must have been
-\* answered by the time it completes.  (Requests that arrive later may
-\* legitimately be deferred to the next scan.)
-AbsInit == [quit |-> FALSE, due |-> {}]
+\* scan (it does so when it lands on PC_BEST0); `over`: those of them that the
+\* last scan that completed without error left unanswered.  The statement
+\* does not say in which scan a request is served (one that arrives while a
+\* scan is running may wait for the next), so a single completed scan that
+\* skips a queued request is not yet "left waiting".  But a request that was
+\* queued before each of TWO scans that both ran to completion without error
+\* and is still unanswered has been passed over with nothing changed in
+\* between that could make a third scan different: that is the finite
+\* witness of "left waiting" used here (besides quiescence).
+AbsInit == [quit |-> FALSE, due |-> {}, over |-> {}]
 
 AbsNext(a, act, o2) ==
   [quit |-> a.quit \/ act.op = "Stop",
    due  |-> IF act.op \in BmOps /\ o2.pc = PC_BEST0
-            THEN 1..Len(o2.reqs) ELSE a.due]
+            THEN 1..Len(o2.reqs) ELSE a.due,
+   over |-> IF act.op = "Tail" /\ act.res = "done"
+            THEN a.due \cap Unanswered(o2) ELSE a.over]
 
 Legal(x, r, act, a2, o2) ==
   CASE x[1] = K_SHUT -> a2.quit                       \* "or the client shuts down"
@@ -128,14 +135,14 @@ Viol(a, o, act, a2, o2) ==
   \cup
   (IF \/ Quiescent(o2) /\ Unanswered(o2) # {}
       \/ act.op = "Tail" /\ act.res = "done" /\
-            \E i \in a.due \cap Unanswered(o2) : o2.reqs[i].start <= o2.best
+            \E i \in a.over \cap a.due \cap Unanswered(o2) : o2.reqs[i].start <= o2.best
    THEN {"NoCallerLeftWaiting"} ELSE {})
   \cup
   \* the same for a request whose start height is above the tip: the scanned
   \* range is empty, so the statement's answer is the empty report; it is a
   \* clause of its own so that a finding about it cannot hide anything else
   (IF act.op = "Tail" /\ act.res = "done" /\
-        \E i \in a.due \cap Unanswered(o2) : o2.reqs[i].start > o2.best
+        \E i \in a.over \cap a.due \cap Unanswered(o2) : o2.reqs[i].start > o2.best
    THEN {"NoCallerLeftWaitingAboveTip"} ELSE {})
 
 \* Liveness at the end of a finite trace: if the trace ends quiescent every
